@@ -128,6 +128,48 @@ def wl_expansion(ctx, rng, case):
         ctx.count("cases_with_expansion")
 
 
+def wl_zero_fingerprint(ctx, rng, case):
+    """keys whose raw fingerprint is 0 (the empty-slot marker of the export format, remapped by the library) must survive kicks,
+    expansions and reloads like any other key.  How 0 is remapped is the library's choice, so these histories contain no removals
+    (an alias with another key's fingerprint can then only make keys MORE present, never absent)."""
+    cfg = ck.gen_cfg(rng)
+    cfg.finger_size = 1
+    cfg.capacity = rng.choice([2, 3, 4, 5, 8])
+    cfg.bucket_size = rng.choice([1, 2, 2])
+    cfg.max_swaps = rng.choice([1, 2, 3])
+    cfg.auto_expand = rng.random() < 0.7
+    zero = []
+    i = rng.randint(0, 50000)
+    while len(zero) < rng.randint(1, 3):
+        k = f"z{i}"
+        i += 1
+        if cfg.raw_fp(k) == 0:
+            zero.append(k)
+    others = [k for k in (f"o{j}" for j in range(rng.randint(3, 9))) if cfg.raw_fp(k) != 0]
+    keys = zero + others
+    ops = []
+    order = list(keys)
+    rng.shuffle(order)
+    # the zero-fingerprint key goes in early so that later adds kick it around / expansions relocate it
+    order.remove(zero[0])
+    order.insert(rng.randint(0, 1), zero[0])
+    for k in order:
+        ops.append(("add", k))
+        r = rng.random()
+        if r < 0.15:
+            ops.append(("expand",))
+        elif r < 0.25:
+            ops.append(("reload", rng.choice(["bytes", "path"])))
+    case.desc = dict(cfg.desc(), n_keys=len(keys), zero_fingerprint_keys=zero, kind="zero-fingerprint keys, no removals")
+    for op in ops:
+        case.op(*op)
+    ex, stats = explore_case(ctx, rng, case, cfg, keys, ops, 400 if ctx.tier == "quick" else 20000, extra=40)
+    ctx.count("zero_fingerprint_histories")
+    if stats["capacity_changes"]:
+        ctx.count("zero_fingerprint_histories_with_expansion")
+    case.nontrivial = ex.decisions > 0 or stats["capacity_changes"] > 0
+
+
 def finish(cov, merged, tier):
     c = merged["counters"]
     cov["decision_sequences_explored"] = int(c.get("resolutions_executed", 0))
@@ -147,11 +189,12 @@ PROP = Prop(
     workloads=[
         Workload("full_table", wl_full_table, quick=120, thorough=2500),
         Workload("expansion", wl_expansion, quick=120, thorough=2500),
+        Workload("zero_fingerprint", wl_zero_fingerprint, quick=80, thorough=2000),
         Workload("explore", wl_explore, quick=200, thorough=5000),
     ],
-    assumptions=["fingerprint model uses an independent FNV-1a (ASCII/bytes keys); keys whose raw fingerprint is 0 (the empty-slot marker) are excluded here and covered by C05",
+    assumptions=["fingerprint model uses an independent FNV-1a (ASCII/bytes keys); keys whose raw fingerprint is 0 (the empty-slot marker) appear only in the zero_fingerprint workload, whose histories contain no removals (how 0 is remapped is the library's choice)",
                  "after a failed add the presence of the NEW key is taken from observation (the statement only protects the keys present before)",
                  "scripted stdlib random: decisions default to 0 beyond the explored prefix"],
     finish=finish,
-    required=["probes", "resolutions_executed", "decisions_taken", "failed_adds", "capacity_changes", "histories_explored_exhaustively_with_choices"],
+    required=["probes", "resolutions_executed", "decisions_taken", "failed_adds", "capacity_changes", "histories_explored_exhaustively_with_choices", "zero_fingerprint_histories_with_expansion"],
 )
